@@ -145,7 +145,73 @@ fn tree(c: &mut Choices, r: &[E], depth: usize, probe: &mut i64) -> E {
     }
 }
 
+/// the filter-pattern position, through the real binary: `@ v { action }` runs the action and `@ v` selects the
+/// packet exactly when v is truthy (reference: the documented table, via the reference interpreter)
+fn filter_patterns(ctx: &mut Ctx) {
+    use super::super::e2e::{self, Opts, Stdin};
+    use super::super::pcapfile::{fill, GHdr, PcapFile, Rec, MAGIC_US};
+    let e2e_shards = 4.min(ctx.nshards);
+    if ctx.shard >= e2e_shards {
+        return;
+    }
+    let mut frame = fill(9, 60);
+    frame[12] = 0x08;
+    frame[13] = 0x00;
+    let file = PcapFile { hdr: GHdr { magic: MAGIC_US, major: 2, minor: 4, thiszone: 0, sigfigs: 0, snaplen: 65535, linktype: 1 }, recs: (0..2).map(|i| Rec { sec: i, usec: 0, wirelen: 60, data: frame.clone() }).collect() };
+    let input = file.bytes();
+    let r = reps();
+    let mut exprs: Vec<E> = r.clone();
+    for (i, a) in r.iter().enumerate() {
+        exprs.push(un("!", a.clone()));
+        let b = r[(i * 7 + 3) % r.len()].clone();
+        exprs.push(bin("&&", a.clone(), b.clone()));
+        exprs.push(bin("||", a.clone(), b));
+    }
+    for (k, e) in exprs.iter().enumerate() {
+        if (k % e2e_shards) != ctx.shard {
+            continue;
+        }
+        // quick tier: every value itself, a third of the derived expressions
+        if k >= r.len() && ctx.tier == Tier::Quick && (k as u64 + ctx.seed) % 3 != 0 {
+            continue;
+        }
+        let mut it = super::super::interp::Interp::new(10_000);
+        let truthy = match it.eval(e, &None) {
+            Ok(v) => !super::super::interp::falsey(&v),
+            Err(_) => continue,
+        };
+        let text = render_expr(e);
+        for with_action in [true, false] {
+            let src = if with_action { format!("@ {} {{ eprintln(\"T\"); }}\n", text) } else { format!("@ {}\n", text) };
+            ctx.case(hash_str(&src), true);
+            ctx.class("filter-pattern");
+            let path = e2e::script_file("c06-filter.p2", &src);
+            let run = e2e::run(Opts::new(vec![path]).stdin(Stdin::Bytes(input.clone())));
+            let case = json!({"filter_pattern": true, "src": src, "truthy": truthy, "with_action": with_action});
+            if run.spawn_error.is_some() || run.timed_out {
+                ctx.infra("C06: filter run failed to spawn or timed out".to_string());
+                continue;
+            }
+            if let Some(c) = run.crashed() {
+                ctx.report(Violation::new("filter-patterns", e2e::crash_signature(&c), format!("{}\n{}", c, src), case));
+                continue;
+            }
+            let (want_err, want_out_len) = if with_action { (if truthy { "T\nT\n" } else { "" }, 24) } else { ("", if truthy { input.len() } else { 24 }) };
+            if run.err_text() != want_err || run.stdout.len() != want_out_len {
+                let sig = format!("filter-pattern:{}:{}", if with_action { "action" } else { "select" }, if truthy { "truthy-treated-as-false" } else { "falsey-treated-as-true-or-error" });
+                ctx.report(Violation::new(
+                    "filter-patterns",
+                    sig,
+                    format!("pattern `{}` is {} by the documented table; stderr {:?} (expected {:?}), stdout {} bytes (expected {})\n{}", text, if truthy { "truthy" } else { "falsey" }, run.err_text(), want_err, run.stdout.len(), want_out_len, src),
+                    case,
+                ));
+            }
+        }
+    }
+}
+
 pub fn run(ctx: &mut Ctx) {
+    filter_patterns(ctx);
     positions(ctx);
     pairs(ctx);
     ctx.more_samples(2);
@@ -171,6 +237,25 @@ pub fn run(ctx: &mut Ctx) {
 }
 
 pub fn replay(section: &str, case: &Value, ctx: &mut Ctx) {
+    if case.get("filter_pattern").is_some() {
+        use super::super::e2e::{self, Opts, Stdin};
+        use super::super::pcapfile::{fill, GHdr, PcapFile, Rec, MAGIC_US};
+        let mut frame = fill(9, 60);
+        frame[12] = 0x08;
+        frame[13] = 0x00;
+        let file = PcapFile { hdr: GHdr { magic: MAGIC_US, major: 2, minor: 4, thiszone: 0, sigfigs: 0, snaplen: 65535, linktype: 1 }, recs: (0..2).map(|i| Rec { sec: i, usec: 0, wirelen: 60, data: frame.clone() }).collect() };
+        let input = file.bytes();
+        let src = case["src"].as_str().unwrap_or("");
+        let truthy = case["truthy"].as_bool().unwrap_or(false);
+        let with_action = case["with_action"].as_bool().unwrap_or(false);
+        let run = e2e::run(Opts::new(vec![e2e::script_file("c06-filter.p2", src)]).stdin(Stdin::Bytes(input.clone())));
+        let (want_err, want_out_len) = if with_action { (if truthy { "T\nT\n" } else { "" }, 24) } else { ("", if truthy { input.len() } else { 24 }) };
+        if run.crashed().is_some() || run.err_text() != want_err || run.stdout.len() != want_out_len {
+            let sig = format!("filter-pattern:{}:{}", if with_action { "action" } else { "select" }, if truthy { "truthy-treated-as-false" } else { "falsey-treated-as-true-or-error" });
+            ctx.report(Violation::new(section, sig, format!("stderr {:?} stdout {} bytes", run.err_text(), run.stdout.len()), case.clone()));
+        }
+        return;
+    }
     match parse_prog(case) {
         Some(prog) => {
             for v in check(ctx, section, "replay", &prog, true) {
